@@ -15,6 +15,7 @@ import Tranp.Lemmas.BlockMulti
 import Tranp.Lemmas.BlockView
 import Tranp.Lemmas.BlockDecoTotal
 import Tranp.Lemmas.BlockDict
+import Tranp.Lemmas.BlockFormat
 import Tranp.Generated.BlockCallSites
 
 namespace Tranp.C18
@@ -775,6 +776,39 @@ example :
       ⟨⟨':', 1, by decide, rfl⟩, ⟨by decide, by decide, by decide⟩,
         ⟨⟨rfl, ⟨by decide, by decide, by decide⟩, by decide⟩, ⟨⟨':', 1, by decide, rfl⟩, ⟨by decide, by decide, by decide⟩, by decide⟩, trivial⟩⟩, trivial⟩
   · decide
+  · decide
+
+/-- The pieces rejoined give back the text up to the blanks behind the delimiters:
+    `parse_to_formatter(name{items}, brackets, D).format()` (default formats) is the canonical text of the structure — every
+    token as it is, the items of every block joined by the delimiter string and exactly one blank — however many blanks
+    (none, one, several) the text had behind its delimiters. Beyond `pair_spec`'s hypotheses: a token does not begin with
+    white space (`str.lstrip()`), a block name does not contain the opening bracket (`text.find(brackets[0], begin)`). -/
+theorem format_spec (k : BK) (D : Str) (hD : DelimOK D) (name : Frag) (items : List Item) (hn : TokOK k D name)
+    (hw : Item.WFList k D true items) (hf : Item.Fmt k (Item.block [] name items)) :
+    parseToFormatterFormat (name.render ++ k.open :: (Item.renderList k items ++ [k.close])) [k.open, k.close] D
+      = .ok (Item.canon k D (Item.block [] name items)) :=
+  format_dict k D hD name items hn hw hf
+
+/-- non-vacuity: `f(a,b,   g(c))` with `()` and `,` comes back as `f(a, b, g(c))` -/
+example :
+    let inner : List Item := [.elem [] (.atom 'c' .nil)]
+    let items : List Item := [.elem [] (.atom 'a' .nil), .elem [','] (.atom 'b' .nil), .block [',', ' ', ' ', ' '] (.atom 'g' .nil) inner]
+    let name : Frag := .atom 'f' .nil
+    DelimOK [','] ∧ TokOK .par [','] name ∧ Item.WFList .par [','] true items ∧ Item.Fmt .par (Item.block [] name items) ∧
+      parseToFormatterFormat (name.render ++ BK.par.open :: (Item.renderList .par items ++ [BK.par.close])) ['(', ')'] [',']
+        = .ok ['f', '(', 'a', ',', ' ', 'b', ',', ' ', 'g', '(', 'c', ')', ')'] := by
+  refine ⟨?_, ?_, ?_, ?_, ?_⟩
+  · intro d hd
+    simp only [has, List.contains_cons, List.contains_nil, Bool.or_false, beq_iff_eq] at hd
+    subst hd; decide
+  · exact ⟨by decide, by decide, by decide⟩
+  · exact ⟨⟨rfl, ⟨by decide, by decide, by decide⟩, by decide⟩, ⟨⟨',', 0, by decide, rfl⟩, ⟨by decide, by decide, by decide⟩, by decide⟩,
+      ⟨⟨',', 3, by decide, rfl⟩, ⟨by decide, by decide, by decide⟩, ⟨⟨rfl, ⟨by decide, by decide, by decide⟩, by decide⟩, trivial⟩⟩, trivial⟩
+  · have hh : ∀ x : Char, Regex.isSpaceChar x = false → ∀ c, (Frag.atom x .nil).render.head? = some c → Regex.isSpaceChar c = false := by
+      intro x hx c hc
+      simp only [Frag.render, List.head?_cons, Option.some.injEq] at hc
+      rw [← hc]; exact hx
+    exact ⟨by decide, ⟨hh 'a' (by decide), hh 'b' (by decide), ⟨by decide, ⟨hh 'c' (by decide), trivial⟩⟩, trivial⟩⟩
   · decide
 
 end Tranp.C18
